@@ -350,11 +350,8 @@ def run_delta(r, w, ext=False):
     if ext:
         configs += [('tuple', 0, 1), ('float32', 0, 1)]
     if ext and max(w) * NARROW_D < 2 ** 15:
-        # RESTRICTED: a narrow integer record only with steps whose pairwise products fit the type (60 * 3 = 180, 180^2 < 2^15).
-        # On the unchanged tree the peak search multiplies successive differences in the dtype of the record, so e.g.
-        # np.array([0, 256, 0], dtype=np.int16) (product -65536 wraps to 0) gives an all-zero delta series (total variation 512);
-        # unsigned records raise TypeError in np.ediff1d.  Reported to the maintainer of this check; widen the factor /
-        # add an unsigned record when repaired.
+        # narrow integer record with steps whose pairwise products leave the type's range (the peak search once multiplied successive
+        # differences in the dtype of the record: repaired by fix #26)
         configs.append(('int16', 0, NARROW_D))
         # narrow / unsigned records whose STEPS leave the type's range (levels -30000 .. 30000 in int16: steps up to 60000; levels
         # 0 .. 240 in uint8: every falling step is negative) - repaired by the widening of fix #34
